@@ -147,3 +147,10 @@ func init() {
 	AddControl(Control{ID: "c18-shared-probeorder", Prop: "C18", Rule: "C18.shared", File: "pkg/decode/decode.go",
 		Old: "	for _, f := range group.Formats {\n		var inArgs []any", New: "	for _, f := range group.Formats {\n		f.ProbeOrder++\n		var inArgs []any", ExpectKey: "pkg/decode.decode|Format.ProbeOrder#1"})
 }
+
+func init() {
+	AddControl(Control{ID: "c07-immut-normalize-inplace", Prop: "C07", Rule: "C07.immut", File: "internal/gojqx/types.go",
+		Old: "			vs[i] = NormalizeFn(e, fn)\n", New: "			vs[i] = NormalizeFn(e, fn)\n			v[i] = vs[i]\n", ExpectKey: "jq:to_xml=format/xml.toXML"})
+	AddControl(Control{ID: "c14-immut-normalize-inplace", Prop: "C14", Rule: "C14.immut", File: "internal/gojqx/types.go",
+		Old: "			vm[k] = NormalizeFn(e, fn)\n		}\n		return vm\n	case map[any]any:", New: "			vm[k] = NormalizeFn(e, fn)\n			v[k] = vm[k]\n		}\n		return vm\n	case map[any]any:", ExpectKey: "jq:_to_toml=format/toml.toTOML"})
+}
